@@ -42,7 +42,7 @@ import numpy as np                       # noqa: E402
 from immutabledict import immutabledict  # noqa: E402
 
 ID = "C02"
-LEAN_MODULES = ["StraxModel.Props.C02"]
+LEAN_MODULES = ["StraxModel.Props.C02", "StraxModel.Props.C02Gates"]
 TRUSTED = [
     "SHA-1 + base32 truncation (`deterministic_hash`) is represented by an abstract injective function H; the check compares the text fed to it",
     "modelled not verified: CPython dict/set semantics, json.dumps formatting (incl. float repr, taken from Python as a plain decimal), "
@@ -68,6 +68,156 @@ RUN = "0"
 logging.getLogger("strax").setLevel(logging.CRITICAL)
 
 _ROOT = tempfile.mkdtemp(prefix="verif_c02_")
+
+# ----------------------------------------------------------------------------- step 0: translator (round 5)
+def translate_lineage_gates():
+    """Scalar / structural decisions of the lineage, context-hash and fuzzy-matching code, read off the AST of the current source:
+    which options enter a lineage entry (`__add_lineage_to_plugin`), what `_context_hash` hashes, which parts `_filter_lineage`
+    drops and how `_matches` compares.  Returns dict name -> Lean body.  (AST helpers shared with c11.py.)"""
+    import ast
+    from lib.engine import REPO
+    from props import c11 as T
+    U = T.Untranslatable
+    ctree = ast.parse((REPO / "strax" / "context.py").read_text())
+    stree = ast.parse((REPO / "strax" / "storage" / "common.py").read_text())
+    out = {}
+
+    # Context.__add_lineage_to_plugin
+    fn = T._func(ctree, "__add_lineage_to_plugin")
+    top = [s for s in fn.body if isinstance(s, ast.If) and T._same_ast(s.test, "plugin.child_plugin")]
+    if len(top) != 1 or not top[0].orelse:
+        raise U("__add_lineage_to_plugin has no `if plugin.child_plugin: ... else: ...`")
+    child, plain = top[0].body, top[0].orelse
+    po = next((s for s in child if isinstance(s, ast.Assign) and isinstance(s.targets[0], ast.Name) and s.targets[0].id == "parent_options"), None)
+    if po is None or not T._same_ast(po.value, "[option.parent_option_name for option in plugin.takes_config.values() if option.child_option]"):
+        raise U("parent_options is not the list of parent_option_name of the child options")
+    loops = [s for s in child if isinstance(s, ast.For)]
+    if len(loops) != 2 or not T._same_ast(loops[0].iter, "plugin.config.items()") or ast.unparse(loops[0].target) != "(option_name, v)":
+        raise U("child branch is not `for option_name, v in plugin.config.items()` followed by the loop over the bases")
+    if not (T._same_ast(loops[1].iter, "plugin.__class__.__bases__") and len(loops[1].body) == 1
+            and T._same_ast(loops[1].body[0], "configs[parent_class.__name__] = parent_class.version()", "exec")):
+        raise U("the loop over __bases__ does not add `configs[parent_class.__name__] = parent_class.version()`")
+    atoms = {"option_name in parent_options": "isParentOption", "option_name not in parent_options": "(!isParentOption)",
+             "plugin.takes_config[option_name].track": "tracked"}
+    keep_child = T._gate_block(list(loops[0].body), atoms, cont="false", end="false",
+                               stop=lambda s: "true" if T._same_ast(s, "configs[option_name] = v", "exec") else None)
+    if not (len(plain) == 1 and isinstance(plain[0], ast.Assign) and isinstance(plain[0].value, ast.DictComp)):
+        raise U("the non-child branch is not one dict comprehension")
+    dc = plain[0].value
+    g = dc.generators
+    if not (len(g) == 1 and T._same_ast(g[0].iter, "plugin.config.items()") and ast.unparse(g[0].target) == "(option, setting)"
+            and T._same_ast(dc.key, "option") and T._same_ast(dc.value, "setting") and len(g[0].ifs) == 1):
+        raise U("the non-child branch is not `{option: setting for option, setting in plugin.config.items() if ...}`")
+    keep_plain = T._gate_expr(g[0].ifs[0], {"plugin.takes_config[option].track": "tracked"}, {})
+    lin = next((s for s in fn.body if isinstance(s, ast.Assign) and ast.unparse(s.targets[0]) == "plugin.lineage"), None)
+    if lin is None or not T._same_ast(lin.value, "{last_provide: (plugin.__class__.__name__, plugin.version(), configs)}"):
+        raise U("plugin.lineage is not {last_provide: (class name, version, configs)}")
+    out["lineageKeeps"] = f"(if child then {keep_child} else {keep_plain})"
+
+    # Context._context_hash
+    fn = T._func(ctree, "_context_hash")
+    ret = next((s for s in fn.body if isinstance(s, ast.Return)), None)
+    reg = next((s for s in fn.body if isinstance(s, ast.Assign) and ast.unparse(s.targets[0]) == "_base_hash_on_plugins"), None)
+    cfg = next((s for s in fn.body if isinstance(s, ast.Assign) and ast.unparse(s.targets[0]) == "_base_hash_on_config"), None)
+    if ret is None or cfg is None or not T._same_ast(cfg.value, "deepcopy(self.config)"):
+        raise U("_context_hash does not start from deepcopy(self.config)")
+    updates = [n for n in ast.walk(fn) if isinstance(n, ast.Call) and ast.unparse(n.func) == "_base_hash_on_config.update"]
+    if reg is not None and not updates and T._same_ast(ret.value, "strax.deterministic_hash((_base_hash_on_config, _base_hash_on_plugins))"):
+        pair, comp = True, reg.value
+    elif reg is None and len(updates) == 1 and T._same_ast(ret.value, "strax.deterministic_hash(_base_hash_on_config)"):
+        pair, comp = False, updates[0].args[0]
+    else:
+        raise U("_context_hash hashes neither the pair (config, registry part) nor the merged dict")
+    if not (isinstance(comp, ast.DictComp) and len(comp.generators) == 1 and T._same_ast(comp.key, "data_type")
+            and T._same_ast(comp.generators[0].iter, "self._plugin_class_registry.items()")
+            and ast.unparse(comp.generators[0].target) == "(data_type, plugin)" and isinstance(comp.value, ast.Tuple)):
+        raise U("registry part of _context_hash is not {data_type: (...) for data_type, plugin in self._plugin_class_registry.items()}")
+    fields = {"plugin.version()": ".str cls.version", "plugin.compressor": ".str cls.compressor", "plugin.input_timeout": ".int cls.inputTimeout"}
+    elts = []
+    for e in comp.value.elts:
+        src = ast.unparse(e)
+        if src not in fields:
+            raise U(f"registry part of _context_hash contains {src}")
+        elts.append(fields[src])
+    out["registryHashEntry"] = ".seq true [" + ", ".join(elts) + "]"
+    ifs = comp.generators[0].ifs
+    out["hashKeepsType"] = "true" if not ifs else "(" + " && ".join(
+        T._gate_expr(i, {"data_type.startswith(TEMP_DATA_TYPE_PREFIX)": "isTemp"}, {}) for i in ifs) + ")"
+
+    # StorageFrontend._filter_lineage / _matches
+    fn = T._func(stree, "_filter_lineage")
+    ret = next((s for s in fn.body if isinstance(s, ast.Return)), None)
+    outer = ret.value if ret is not None else None
+    if not (isinstance(outer, ast.DictComp) and T._same_ast(outer.key, "data_type") and len(outer.generators) == 1
+            and T._same_ast(outer.generators[0].iter, "lineage.items()") and isinstance(outer.value, ast.Tuple) and len(outer.value.elts) == 3
+            and T._same_ast(outer.value.elts[0], "v[0]") and T._same_ast(outer.value.elts[1], "v[1]")
+            and isinstance(outer.value.elts[2], ast.DictComp)):
+        raise U("_filter_lineage is not {data_type: (v[0], v[1], {...}) for data_type, v in lineage.items() if ...}")
+    inner = outer.value.elts[2]
+    if not (len(inner.generators) == 1 and T._same_ast(inner.generators[0].iter, "v[2].items()") and T._same_ast(inner.key, "option_name")
+            and ast.unparse(inner.generators[0].target) == f"(option_name, {ast.unparse(inner.value)})"):
+        raise U("inner comprehension of _filter_lineage is not {option_name: b for option_name, b in v[2].items() if ...}")
+    conj = lambda ifs, atoms: "true" if not ifs else "(" + " && ".join(T._gate_expr(i, atoms, {}) for i in ifs) + ")"  # noqa: E731
+    out["filterKeepsType"] = conj(outer.generators[0].ifs, {"data_type in fuzzy_for": "inFuzzyFor", "data_type not in fuzzy_for": "(!inFuzzyFor)"})
+    out["filterKeepsOption"] = conj(inner.generators[0].ifs, {"option_name in fuzzy_for_options": "inFuzzyOpts",
+                                                              "option_name not in fuzzy_for_options": "(!inFuzzyOpts)"})
+    fn = T._func(stree, "_matches")
+    body = [s for s in fn.body if not (isinstance(s, ast.Expr) and isinstance(s.value, ast.Constant))]
+    if not (body and isinstance(body[0], ast.If) and len(body[0].body) == 1 and T._same_ast(body[0].body[0], "return lineage == desired_lineage", "exec")
+            and not body[0].orelse):
+        raise U("_matches does not start with `if <not fuzzy>: return lineage == desired_lineage`")
+    out["matchesExactMode"] = T._gate_expr(body[0].test, {"fuzzy_for": "fuzzyForGiven", "fuzzy_for_options": "fuzzyOptsGiven"}, {})
+    rest = [s for s in body[1:] if not (isinstance(s, ast.Assign) and ast.unparse(s) == "args = [fuzzy_for, fuzzy_for_options]")]
+    if len(rest) != 1 or not isinstance(rest[0], ast.Return):
+        raise U("fuzzy branch of _matches is not one return")
+    src = ast.unparse(rest[0].value)
+    f1, f2 = "self._filter_lineage(lineage, *args)", "self._filter_lineage(desired_lineage, *args)"
+    rule = {f"strax.deterministic_hash({f1}) == strax.deterministic_hash({f2})": ".textEq",
+            f"strax.hashablize({f1}) == strax.hashablize({f2})": ".pyEqCanon",
+            f"{f1} == {f2}": ".pyEqVals"}.get(src)
+    if rule is None:
+        raise U("comparison of the fuzzy branch of _matches: " + src[:100])
+    out["rules"] = f"{{ Rules.fixed with pairHash := {str(pair).lower()}, matchRule := {rule} }}"
+    return out
+
+
+LINEAGE_GATE_SIGS = [
+    ("lineageKeeps", "(child isParentOption tracked : Bool) : Bool",
+     "Context.__add_lineage_to_plugin: does an entry of plugin.config go into the `configs` of the lineage entry"),
+    ("registryHashEntry", "(cls : PluginClass) : Val", "Context._context_hash: what is hashed per registered data type"),
+    ("hashKeepsType", "(isTemp : Bool) : Bool", "Context._context_hash: which registered data types are hashed"),
+    ("filterKeepsType", "(inFuzzyFor : Bool) : Bool", "StorageFrontend._filter_lineage: lineage entries kept"),
+    ("filterKeepsOption", "(inFuzzyOpts : Bool) : Bool", "StorageFrontend._filter_lineage: options kept inside an entry"),
+    ("matchesExactMode", "(fuzzyForGiven fuzzyOptsGiven : Bool) : Bool", "StorageFrontend._matches: plain `==` of the lineages is used"),
+    ("rules", ": Rules", "what _context_hash hashes (pair vs merged dict) and how fuzzy _matches compares; resetOnReplace is not read from the source"),
+]
+
+
+def regen(ctx):
+    from lib.engine import LEAN
+    from props import c11 as T
+    out = LEAN / "StraxModel" / "Generated" / "LineageGates.lean"
+    try:
+        bodies = translate_lineage_gates()
+    except (T.Untranslatable, SyntaxError, OSError, AttributeError) as e:
+        ctx.translator["lineage.gates"] = f"untranslatable: {e}"
+        ctx.note(f"translator could not handle the lineage / context-hash / fuzzy decisions ({e}); Generated/LineageGates.lean is the PREVIOUS translation")
+        ctx.violation("translator:lineage_gates", "translator", None, {"reason": str(e)},
+                      "translator regenerates Generated/LineageGates.lean (lineageKeeps, registryHashEntry, hashKeepsType, filterKeepsType, "
+                      "filterKeepsOption, matchesExactMode, rules) from __add_lineage_to_plugin, _context_hash, _filter_lineage, _matches", False)
+        return
+    ctx.translator["lineage.gates"] = "ok"
+    text = ("-- GENERATED by checks/props/c02.py:regen from /repo/strax/context.py (Context.__add_lineage_to_plugin, _context_hash) and\n"
+            "-- /repo/strax/storage/common.py (StorageFrontend._filter_lineage, _matches). Do not edit.\n"
+            "import StraxModel.Model.Lineage\n"
+            "namespace Strax.Generated.LineageGates\n"
+            "open Strax Strax.Lineage\n\n"
+            + "".join(f"/-- {doc} -/\ndef {name} {sig} :=\n  {bodies[name]}\n\n" for name, sig, doc in LINEAGE_GATE_SIGS)
+            + "end Strax.Generated.LineageGates\n")
+    if not out.exists() or out.read_text() != text:
+        out.write_text(text)
+
+
 import atexit  # noqa: E402
 
 _PID = os.getpid()
